@@ -198,7 +198,18 @@ CORPUS_EXPECT = {
     "kindnames-instance-renamed": ("kindnames", "instance-redefined"),
     "kindnames-destination-dropped": ("kindnames", "destination-dropped-by-update"),
     "usage-instance-renamed-to-consul": ("kindnames", "instance-redefined"),
-    "topology-upstream-dropped": ("topology", "upstream-dropped-or-instance-redefined-or-wildcard-gateway"),
+    "topology-upstream-dropped": ("topology", "upstream-dropped"),
+    "topology-instance-redefined": ("topology", "instance-redefined"),
+    "topology-ingress-wildcard-cleanup": ("topology", "ingress-wildcard-cleanup"),
+    "topology-native-upstreams": ("topology", "native-upstreams"),
+    # peer stream (oracle-only): rows imported from a peer
+    "peer-imported-proxy-under-ingress-wildcard": ("gateway-services", "imported-instance"),
+    "peer-vip-imported-proxy-outlives-assignment": ("vip-advertised", "imported-proxy-outlived-assignment"),
+    # wide stream (oracle-only): parts of the universe the model's generator stays out of
+    "wide-destination-with-instances": ("gateway-services", "destination-with-instances"),
+    "wide-client-supplied-virtual-address": ("vip-advertised", "client-supplied-address"),
+    "wide-manual-ip-in-auto-range": ("vip-unique", "manual-ip-in-auto-range"),
+    "peer-same-names-both-sides": None,           # imported and local rows of the same names do not disturb each other
     "gateway-ingress-wildcard-order": ("gateway-services", "wildcard-order"),
     # regression cases of the repaired findings (8e1bd1c, acb191c, 10e7cca, 0bb54ea, a882280, 948377c, dc11ff4): any oracle
     # failure of the repaired view on them has no excluded class and is therefore reported as a VIOLATION with
@@ -247,7 +258,7 @@ def run(ctx):
     cov["trusted_base"] = vlib.STD_TRUSTED + [
         "two hand-written models: Store/Model.v (nodes, typical services, checks, sessions, KV, transactions) for orphan freedom and the cascades, Catalog/Model.v (service kinds, kind-service-names, usage, virtual IPs, gateway-services, mesh-topology) for the derived views; both are compared with the real FSM/state store on this run (whole canonical dumps and every command result)",
         "projected away (not compared): the index table, create/modify indexes of derived rows, usage rows with count 0 and the usage row of proxy-defaults, every error of a failed transaction after the first; the stored GatewayService.ServiceKind is compared exactly against the model but only as 'is a destination' (terminating gateways) by the oracle",
-        "modelled rather than verified: go-memdb (iteration order, change tracking at commit), msgpack decoding, the FSM dispatch; node names differing only in case, peer-imported rows, api-gateways, terminating-gateway virtual IPs (system metadata flag off) and service-router/splitter/intentions entries are outside the generated universe",
+        "modelled rather than verified: go-memdb (iteration order, change tracking at commit), msgpack decoding, the FSM dispatch; node names differing only in case and rows imported from peers (both covered by oracle-only streams of this check, not by the model), api-gateways, terminating-gateway virtual IPs (system metadata flag off) and service-router/splitter/intentions entries are outside the generated universe",
         "the direct oracle (Go, harness/catalog) recomputes every derived view from the real base tables after every command; its notion of 'what the view ought to contain' is restated in Coq as Catalog/Spec.v (recompute_*) and the two are tied only by the witnesses of Catalog/Refuted.v replayed on the real store"]
     assumptions = ["go-memdb transaction semantics (atomic commit/abort, change set at commit)",
                    "generators stay inside the modelled command universe"]
